@@ -392,6 +392,13 @@ func C01(r *eng.Run) {
 	defaultModeSweep(r, []arithOp{opAdd, opSub}, small)
 	r.Phase("A5 default mode", t0, nil)
 
+	// B: closure over operation sequences (states reached only after two or three operations)
+	depth, capStates := 2, 400000
+	if r.Thorough() {
+		depth, capStates = 3, 3000000
+	}
+	arithClosure(r, map[arithOp]bool{opAdd: true, opSub: true}, depth, capStates)
+
 	for m := 0; m < 6; m++ {
 		for _, g := range []string{"g0", "g1-4", "g5", "g6-9"} {
 			r.Require(fmt.Sprintf("AddWithMode/%s/neg0/%s/*", ref.ModeNames[m], g), fmt.Sprintf("SubWithMode/%s/neg1/%s/*", ref.ModeNames[m], g))
